@@ -400,7 +400,45 @@ fn check_depth_boundary_planted(g: &mut Gen, ctx: &mut Ctx) -> CaseResult {
     depth_differentials(t, &b, d, ctx)
 }
 
+/// Integers in the bignum spellings the CBOR library leaves as tags (over an indefinite-length or a
+/// zero-padded byte string), as a label, as an interpreted value and as an opaque value of a header,
+/// a key, a claims set and inside message bodies: whatever one API layer makes of them, the other makes
+/// the same of them.
+fn check_unfolded_bignums(g: &mut Gen, ctx: &mut Ctx) -> CaseResult {
+    const SPELLINGS: [&[u8]; 5] = [&[0xc2, 0x5f, 0x41, 0x01, 0xff], &[0xc3, 0x5f, 0x41, 0x06, 0xff], &[0xc2, 0x51, 0, 0, 0, 0, 0, 0, 0, 0, 0, 0, 0, 0, 0, 0, 0, 0, 0x04], &[0xc2, 0x5f, 0x41, 0x01, 0x40, 0xff], &[0xc3, 0x5f, 0xff]];
+    let sp = *g.pick(&SPELLINGS);
+    let b: Vec<u8> = match g.below(8) {
+        0 => crate::props::c14::palette()[g.below(crate::props::c14::palette().len())].clone(),
+        1 => sp.to_vec(),
+        2 => [&[0xa1u8][..], sp, &[0x00]].concat(),
+        3 => [&[0xa1u8, 0x01][..], sp].concat(),
+        4 => [&[0xa2u8, 0x01, 0x01][..], sp, &[0x00]].concat(),
+        5 => [&[0xa1u8, 0x18, 0x64][..], sp].concat(),
+        6 => [&[0xa1u8, 0x04][..], sp].concat(),
+        _ => [&[0x83u8, 0xf6][..], sp, &[0xf6]].concat(),
+    };
+    ctx.class("unfolded-bignum-spelling");
+    ctx.nontrivial(hash_bytes(&b));
+    ctx.sample_with(|| format!("bignum spelling the CBOR library does not fold: {}", hex_trunc(&b, 40)));
+    for t in all_types() {
+        let got = (t.dec)(&b);
+        let via = match parse_one(&b) {
+            Ok(v) => (t.dec_value)(v).map_err(|_| ()),
+            Err(()) => Err(()),
+        };
+        match (&got, &via) {
+            (Ok(x), Ok(y)) => ensure!(x == y, "{}: from_slice and from_cbor_value(parse) yield different values on {}", t.name, hex_trunc(&b, 40)),
+            (Err(_), Err(_)) => {}
+            _ => fail!("{}: from_slice {} but parse-then-convert {} on {}", t.name, if got.is_ok() { "accepts" } else { "rejects" }, if via.is_ok() { "accepts" } else { "rejects" }, hex_trunc(&b, 40)),
+        }
+    }
+    Ok(())
+}
+
 fn case(g: &mut Gen, ctx: &mut Ctx) -> CaseResult {
+    if g.ratio(1, 25) {
+        return check_unfolded_bignums(g, ctx);
+    }
     if g.ratio(1, 6) {
         return check_inside_protected(g, ctx);
     }
